@@ -194,6 +194,12 @@ fn insert(string_map: &mut StringMap, id: &str, idx: Option<usize>) -> Result<()
             if actual != expected {
                 return Err(ParseError::StringMapPositionMismatch(actual, expected));
             }
+        } else if let Some(entry) = string_map.get_index(i) {
+            // The position is already taken by a different entry. Overwriting it would leave two
+            // IDs resolving to the same index.
+            let actual = (i, id.into());
+            let expected = (i, entry.into());
+            return Err(ParseError::StringMapPositionMismatch(actual, expected));
         } else {
             string_map.insert_at(i, id.into());
         }
@@ -233,6 +239,34 @@ impl TryFrom<&Header> for StringMaps {
 #[cfg(test)]
 mod tests {
     use super::*;
+
+    #[test]
+    fn test_from_str_with_conflicting_positions() {
+        // Two different IDs with the same IDX.
+        let s = r#"##fileformat=VCFv4.3
+##INFO=<ID=NS,Number=1,Type=Integer,Description="Number of samples with data",IDX=1>
+##INFO=<ID=DP,Number=1,Type=Integer,Description="Total depth",IDX=1>
+#CHROM	POS	ID	REF	ALT	QUAL	FILTER	INFO
+"#;
+
+        assert!(matches!(
+            s.parse::<StringMaps>(),
+            Err(ParseError::StringMapPositionMismatch(actual, expected))
+                if actual == (1, String::from("DP")) && expected == (1, String::from("NS"))
+        ));
+
+        // An explicit IDX that names the position an earlier record without an IDX was given.
+        let s = r#"##fileformat=VCFv4.3
+##INFO=<ID=NS,Number=1,Type=Integer,Description="Number of samples with data">
+##INFO=<ID=DP,Number=1,Type=Integer,Description="Total depth",IDX=1>
+#CHROM	POS	ID	REF	ALT	QUAL	FILTER	INFO
+"#;
+
+        assert!(matches!(
+            s.parse::<StringMaps>(),
+            Err(ParseError::StringMapPositionMismatch(..))
+        ));
+    }
 
     #[test]
     fn test_default() {
